@@ -89,6 +89,12 @@ func c02Gen(r *core.Rand, i int) c02case {
 		"{% for kv in flat %}{% cycle 'a', 'b' %}{{ kv[1] }}{% endfor %}", "{% capture c %}{% for kv in flat %}{{ kv[0] }}{% endfor %}{% endcapture %}{{ c | upcase }}",
 		"{{ flat | first | first }}{{ big | last | last }}", "{% for kv in dm %}{{ kv[0] }}{% endfor %}{{ dm | join: '+' }}",
 		"{% if flat contains 'pad0' %}T{% endif %}{{ flat.size }}{% case big.size %}{% when 2 %}two{% else %}many{% endcase %}",
+		// arrays: what a filter does to its input must not show in a later render
+		"{{ arr | join: ',' }}|{{ arr | sort | join: ',' }}|{{ sarr | first }}{{ sarr | sort | first }}{{ sarr | sort_natural | last }}",
+		"{{ mixed | compact | size }}{{ mixed | size }}{{ arr | reverse | first }}{{ arr | first }}{{ arr | uniq | size }}{{ arr | size }}",
+		// maps with interface keys: string keys, then non-string keys of several kinds, numerically equal keys of different types
+		"{% for kv in anys %}{{ kv[0] }}={{ kv[1] }};{% endfor %}|{% for kv in anyn %}{{ kv[0] }}={{ kv[1] }};{% endfor %}|{% for kv in anye %}{{ kv[1] }};{% endfor %}",
+		"{{ anyn | join: ',' }}|{{ anys | first | last }}|{% tablerow kv in anye %}{{ kv[1] }}{% endtablerow %}|{{ bigkeys | join: ',' }}|{% for kv in bigkeys %}{{ kv[0] }};{% endfor %}",
 	}
 	cs := c02case{env: env, mapUse: true}
 	if i%3 == 2 {
@@ -128,6 +134,26 @@ func (cs c02case) bind(r *core.Rand) map[string]any {
 	}
 	b["keyed"] = liquid.IterationKeyedMap(km)
 	b["ordered"] = cs.ordered
+	// interface-keyed and large-integer-keyed maps, rebuilt in a PRNG order as well
+	anys, anyn, anye, bigkeys := make(map[any]any), make(map[any]any), make(map[any]any), make(map[int64]string)
+	type ent struct{ k, v any }
+	ents := []struct {
+		m  map[any]any
+		es []ent
+	}{
+		{anys, []ent{{"b", 1}, {"a", 2}, {"C", 3}, {"c", 4}}},
+		{anyn, []ent{{3, "three"}, {1, "one"}, {2, "two"}, {true, "yes"}, {2.5, "f"}, {"s", "str"}, {false, "no"}, {10, "ten"}}},
+		{anye, []ent{{1, "int"}, {int8(1), "int8"}, {uint(1), "uint"}, {1.0, "float"}, {int64(1), "int64"}}},
+	}
+	for _, e := range ents {
+		for _, j := range r.Perm(len(e.es)) {
+			e.m[e.es[j].k] = e.es[j].v
+		}
+	}
+	for _, j := range r.Perm(8) {
+		bigkeys[int64(1)<<60+int64(j)] = fmt.Sprintf("v%d", j)
+	}
+	b["anys"], b["anyn"], b["anye"], b["bigkeys"] = anys, anyn, anye, bigkeys
 	flat, _ := cs.env.Lookup("flat")
 	b["dm"] = gen.DropV{X: gen.Realise(flat, r, gen.Rep{}, true)}
 	return b
